@@ -5,7 +5,7 @@ THEOREMS = ["C06_wrong_key_acceptance_is_a_tag_collision", "C06_rejected_means_n
 
 
 def run(ck):
-    ck.prove(["Properties_C06", "Properties_Src2", "SrcRun5"], THEOREMS + ["SRC_verify"])   # SrcRun5: the translated whole-file runs (a stale translation concerns this property)
+    ck.prove(["Properties_C06", "Properties_Src2", "Properties_SrcE2Ed", "SrcRun5"], THEOREMS + ["SRC_verify", "SRC_execute_decrypt_rejects_what_verify_rejects"])   # SrcRun5: the translated whole-file runs (a stale translation concerns this property)
     exe = small_driver(ck)
     env = small_env(ck)
     big = ck.tier == "thorough"
